@@ -67,12 +67,26 @@ REG = Registry()
 
 
 # ============================================================================ Ref type
-class Ref(Ty):
-    """Reference to an object of heap class `cls` (a Python class or a lazy name)."""
+CLASS_OF = z3.Function("class_of", z3.IntSort(), z3.IntSort())     # dynamic class id of a reference
+_CLASS_IDS = {}
 
-    def __init__(self, cls, nullable=False):
+
+def class_id(pycls):
+    k = f"{pycls.__module__}.{pycls.__qualname__}"
+    if k not in _CLASS_IDS:
+        _CLASS_IDS[k] = len(_CLASS_IDS) + 1
+    return _CLASS_IDS[k]
+
+
+class Ref(Ty):
+    """Reference to an object of heap class `cls` (a Python class or a lazy name).
+    variants: the possible dynamic classes (subclasses) - reading such a reference forks on the
+    class, so isinstance() tests and method dispatch in the code see the concrete class."""
+
+    def __init__(self, cls, nullable=False, variants=None):
         self._cls = cls
         self.nullable = nullable
+        self.variants = list(variants) if variants else None
         self.name = f"Ref({cls if isinstance(cls, str) else cls.__name__}{'?' if nullable else ''})"
 
     @property
@@ -96,6 +110,11 @@ class Ref(Ty):
         h = c.heap
         if not (z3.is_int_value(term)):
             c.assume(z3.And(term >= (0 if self.nullable else 1), term <= h.alloc))
+        if self.variants:
+            ids = [class_id(v) for v in self.variants]
+            c.assume(z3.Or(*[CLASS_OF(term) == i for i in ids]))
+            k = c.choose([CLASS_OF(term) == i for i in ids], site="class:" + self.name)
+            return ObjProxy(term, self.variants[k])
         return ObjProxy(term, self.cls)
 
     def unwrap(self, v):
@@ -113,11 +132,19 @@ class Ref(Ty):
 
     def concretize(self, model, term):
         v = model.eval(term, model_completion=True).as_long()
-        return None if v == 0 else {"__ref__": v, "cls": self.cls.__name__}
+        if v == 0:
+            return None
+        cname = self.cls.__name__
+        if self.variants:
+            cid = model.eval(CLASS_OF(z3.IntVal(v)), model_completion=True).as_long()
+            for vv in self.variants:
+                if class_id(vv) == cid:
+                    cname = vv.__name__
+        return {"__ref__": v, "cls": cname}
 
 
-def OptRef(cls):
-    return Ref(cls, nullable=True)
+def OptRef(cls, variants=None):
+    return Ref(cls, nullable=True, variants=variants)
 
 
 # ============================================================================ locations
@@ -1141,4 +1168,6 @@ def old_view(obj, snapshot):
 def new_object(cls):
     """Allocate a fresh symbolic object of heap class `cls` (fields unconstrained until set)."""
     c = _c()
-    return ObjProxy(c.heap.new_ref(), cls)
+    ref = c.heap.new_ref()
+    c.assume(CLASS_OF(ref) == class_id(cls))
+    return ObjProxy(ref, cls)
